@@ -210,7 +210,7 @@ var c07 = &progSpec{
 	id: "C07",
 	cfg: func(idx int) prog.Cfg {
 		return prog.Cfg{Items: 3, MaxDepth: 3, Ifs: true, Ranges: true, Vars: true, Blocks: idx%2 == 0, Includes: idx%3 == 0, Ctx: true, CondKinds: true, MultiFile: idx%4 == 0, SharedNames: true, IssetSwallow: true, IncludeIfExists: idx%2 == 0,
-			Fails: idx%7 == 0 || idx%3 == 0, FailAnywhere: idx%7 == 0, Try: idx%3 == 0, StateProbes: idx%2 == 1}
+			Fails: idx%7 == 0 || idx%3 == 0, FailAnywhere: idx%7 == 0, Try: idx%3 == 0, StateProbes: idx%2 == 1, PanicFuncs: true}
 	},
 	nontriv: func(f map[string]bool, _ *prog.Program) bool {
 		return f["capture-loop-var"] || f["shadow-root"] || f["shadow-local"] || f["set"] || f["if-let"] || f["yield-ctx"] || f["include-ctx"] || f["yield-content-ctx"]
@@ -242,7 +242,7 @@ var c13values = []prog.Opaque{{Src: "wval1", Val: prog.Str("«w1<&>»")}, {Src: 
 var c08 = &progSpec{
 	id: "C08",
 	cfg: func(idx int) prog.Cfg {
-		return prog.Cfg{Items: 3, MaxDepth: 3, Ifs: true, Ranges: idx%2 == 0, Vars: true, Blocks: true, MultiFile: true, Ctx: true, SharedNames: true, Includes: idx%5 == 0, Try: idx%3 == 0, Fails: idx%3 == 0, FailAnywhere: idx%6 == 0, StateProbes: idx%3 == 0}
+		return prog.Cfg{Items: 3, MaxDepth: 3, Ifs: true, Ranges: idx%2 == 0, Vars: true, Blocks: true, MultiFile: true, Ctx: true, SharedNames: true, Includes: idx%5 == 0, Try: idx%3 == 0, Fails: idx%3 == 0, FailAnywhere: idx%6 == 0, StateProbes: idx%3 == 0, PanicFuncs: true, IncludeIfExists: idx%5 == 0}
 	},
 	nontriv: func(f map[string]bool, p *prog.Program) bool {
 		return definedInSeveralFiles(p) && (f["yield"] || f["block-def"])
@@ -255,7 +255,7 @@ var c08 = &progSpec{
 var c13 = &progSpec{
 	id: "C13",
 	cfg: func(idx int) prog.Cfg {
-		return prog.Cfg{Items: 3, MaxDepth: 4, Ifs: true, Ranges: true, Vars: true, Blocks: idx%3 != 0, Includes: idx%4 == 0, MultiFile: idx%6 == 0, Try: true, Fails: true, Ctx: true, CondKinds: true, RangeErrs: true, SharedNames: idx%2 == 0, StateProbes: idx%2 == 1, IssetSwallow: true, IncludeIfExists: idx%2 == 0,
+		return prog.Cfg{Items: 3, MaxDepth: 4, Ifs: true, Ranges: true, Vars: true, Blocks: idx%3 != 0, Includes: idx%4 == 0, MultiFile: idx%6 == 0, Try: true, Fails: true, Ctx: true, CondKinds: true, RangeErrs: true, SharedNames: idx%2 == 0, StateProbes: idx%2 == 1, IssetSwallow: true, IncludeIfExists: idx%2 == 0, PanicFuncs: true,
 			Values: c13values, Writers: []string{"raw", "unsafe"}}
 	},
 	extra:   map[string]interface{}{"wval1": "«w1<&>»", "wval2": "«w2»"},
